@@ -24,7 +24,7 @@ Before(mode, a, b) == IF mode = "finished" THEN a.k < b.k ELSE BeforeT(a, b)
 
 Rank(mode, e, S) == Cardinality({f \in S : Before(mode, f, e)})
 
-SortSeq(mode, S) == [i \in 1..Cardinality(S) |-> CHOOSE e \in S : Rank(mode, e, S) = i - 1]
+OrderSeq(mode, S) == [i \in 1..Cardinality(S) |-> CHOOSE e \in S : Rank(mode, e, S) = i - 1]
 
 Oldest(mode, S, n) == {e \in S : Rank(mode, e, S) < n}
 
